@@ -764,4 +764,41 @@ theorem C04_generated_plan_price_is_the_model (pp gbs hours : Int) (jkl : Dec) :
       dec10_42, dec11_67, Option.map, Bool.false_eq_true] <;>
     (try rfl)
 
+/-- The three cuts of a plan purchase — `storageProviderCut`, `polCut`, `refCut`, sliced out of
+`BuyStorage` and translated on every run as functions of the amount paid, the referral
+percentage, the liquidity share `pol` and the `discount` (both decided on the referred / long
+branch) — are the expressions the model's `buyStorage` evaluates and the C04 share theorems are
+about: amount × (1 − ref/100 − pol − discount), amount × pol, amount × ref/100, each on exact
+decimals, truncated only when turned into coins. -/
+theorem C04_generated_plan_cuts_are_the_model (refComm toPay : Int) (pol discount : Dec) :
+    Generated.Pure.BuyStorage_storageProviderCut refComm pol discount toPay =
+      Dec.mul (Dec.ofInt toPay)
+        (Dec.sub (Dec.sub (Dec.sub Dec.one (Dec.quoInt (Dec.ofInt refComm) 100)) pol) discount) ∧
+    Generated.Pure.BuyStorage_polCut toPay pol = Dec.mul (Dec.ofInt toPay) pol ∧
+    Generated.Pure.BuyStorage_refCut refComm toPay = Dec.mul (Dec.ofInt toPay) (Dec.quoInt (Dec.ofInt refComm) 100) ∧
+    Generated.Pure.BuyStorage_storageProviderCut_inputs = ["params.ReferralCommission", "pol", "discount", "toPay.Amount"] ∧
+    Generated.Pure.BuyStorage_polCut_inputs = ["toPay.Amount", "pol"] ∧
+    Generated.Pure.BuyStorage_refCut_inputs = ["params.ReferralCommission", "toPay.Amount"] :=
+  ⟨rfl, rfl, rfl, rfl, rfl, rfl⟩
+
+/-- The paid period and the provider cut of a one-time-payment post, sliced out of `PostFile`:
+`days = ((Expires − height)·6 / 60 / 60) / 24` (the model's `postDays`, as long as the product
+stays inside int64 — beyond it the model wraps like the chain does) and
+`cut = cost × (1 − ref/100 − pol/100)` (the model's `postSpr`). -/
+theorem C04_generated_payonce_terms_are_the_model (h ex cost : Int) (p : Params)
+    (hr : I64.inRange ((ex - h) * 6) = true) :
+    Generated.Pure.PostFile_days ex h = postDays h ex ∧
+    Generated.Pure.PostFile_storageProviderCut p.referralCommission p.polRatio cost =
+      Dec.mul (Dec.ofInt cost) (postSpr p) ∧
+    Generated.Pure.PostFile_days_inputs = ["msg.Expires", "ctx.BlockHeight()"] ∧
+    Generated.Pure.PostFile_storageProviderCut_inputs = ["params.ReferralCommission", "params.PolRatio", "toPay.Amount"] := by
+  refine ⟨?_, rfl, rfl, rfl⟩
+  unfold Generated.Pure.PostFile_days postDays postHours
+  have : I64.mul (ex - h) 6 = (ex - h) * 6 := by
+    unfold I64.inRange I64.minV I64.maxV at hr
+    simp only [Bool.and_eq_true, decide_eq_true_eq] at hr
+    unfold I64.mul I64.wrap
+    omega
+  rw [this]
+
 end Canine.Storage
